@@ -29,7 +29,7 @@ def build_program(bdir, name, init='pattern'):
     P = PROGRAMS[name]
     d = os.path.join(bdir, name + ('' if init == 'pattern' else '-' + init))
     os.makedirs(d, exist_ok=True)
-    inc = ['-I' + os.path.join(core.REPO, 'include'), '-I' + os.path.join(core.REPO, 'examples')]
+    inc = ['-I' + os.path.join(core.REPO, 'include'), '-I' + os.path.join(core.REPO, 'src'), '-I' + os.path.join(core.REPO, 'examples')]
     san = [s.replace('=pattern', '=' + init) for s in SAN]
     if init == 'none':
         san = [x for x in san if 'trivial-auto-var-init' not in x]      # locals keep whatever the stack held: stale data persists between calls
@@ -42,9 +42,17 @@ def build_program(bdir, name, init='pattern'):
     o = os.path.join(d, 'ex_wrap.o')
     cmds.append(base + ren + P['defs'] + ['-DEX_SOURCE="%s"' % os.path.join(core.REPO, P['src']), '-c', os.path.join(core.ROOT, 'engine', 'ex', 'ex_wrap.c'), '-o', o])
     objs.append(o)
-    for s in P['extra'] + ['examples/common/common.c']:
+    # the program's other sources: every .c file next to it that has no main() of its own, and everything in examples/common
+    import glob as _glob
+    extra = []
+    if not os.path.isabs(P['src']):
+        for c in sorted(_glob.glob(os.path.join(core.REPO, os.path.dirname(P['src']), '*.c'))):
+            if os.path.abspath(c) != os.path.abspath(os.path.join(core.REPO, P['src'])) and not re.search(r'\bint\s+main\s*\(', open(c, errors='replace').read()):
+                extra.append(c)
+    extra += sorted(_glob.glob(os.path.join(core.REPO, 'examples', 'common', '*.c')))
+    for s in extra:
         o = os.path.join(d, core.objname(s))
-        cmds.append(base + ren + ['-c', os.path.join(core.REPO, s), '-o', o])
+        cmds.append(base + ren + ['-c', s, '-o', o])
         objs.append(o)
     for s in core.repo_sources():
         o = os.path.join(d, core.objname(s))
@@ -84,6 +92,23 @@ def selftest(bdir):
     if r['grow'][1].count('RECV') != 5 or 'OUT 11' not in r['grow'][1] or 'OUT 38' not in r['grow'][1]:
         core.die_infra('E4 self-test: repeated event not delivered/logged as specified: %s' % (r['grow'][1],))
     return c
+
+
+_FD_OK = {}
+
+
+def fd_available(exe, args):
+    """FD mode of the CAN listener can be entered: through the preset hook, or - when the tree has no such variable any more -
+    through the program's own --fd option, provided that option gets the program as far as its receive loop"""
+    d = os.path.dirname(exe)
+    if d not in _FD_OK:
+        mode = open(os.path.join(d, 'fdmode')).read() if os.path.exists(os.path.join(d, 'fdmode')) else 'preset'
+        if mode == 'preset':
+            _FD_OK[d] = True
+        else:
+            r = run_batch(exe, [('probe', args, 'fd', [])], _confirm=False)['probe']
+            _FD_OK[d] = r[0] == 'ok'
+    return _FD_OK[d]
 
 
 def run_batch(exe, scripts, limit=2.0, _confirm=True):
